@@ -108,6 +108,12 @@ func check(c *enum.Ctx, k kase) (nontrivial bool) {
 			if got := s.Encode(e); int(got) != k.V {
 				fail("Qsolexa.Encode/Solexa", "Qsolexa(%d).Encode(Solexa) = %d, want %d", s, got, k.V)
 			}
+			// decoding a Solexa byte to a Phred score is the analytic conversion of the decoded score
+			if x := 10 * math.Log10(math.Pow(10, float64(k.V-64)/10)+1); !math.IsInf(x, 0) && !math.IsNaN(x) {
+				if got := e.DecodeToQphred(byte(k.V)); !roundOK(x, int(got)) {
+					fail("DecodeToQphred/Solexa", "Solexa.DecodeToQphred(%d) = %d, analytic conversion of Solexa %d is %.6f", k.V, got, k.V-64, x)
+				}
+			}
 			return true
 		}
 		if k.V-offset(e) < 0 {
@@ -119,6 +125,12 @@ func check(c *enum.Ctx, k kase) (nontrivial bool) {
 		}
 		if got := q.Encode(e); int(got) != k.V {
 			fail("Qphred.Encode/"+encNames[e], "Qphred(%d).Encode(%s) = %d, want %d", q, encNames[e], got, k.V)
+		}
+		// decoding a Phred-offset byte to a Solexa score is the analytic conversion of the decoded score
+		if x := 10 * math.Log10(math.Pow(10, float64(k.V-offset(e))/10)-1); !math.IsInf(x, 0) && !math.IsNaN(x) && math.Round(x) >= -127 && math.Round(x) <= 126 {
+			if got := e.DecodeToQsolexa(byte(k.V)); !roundOK(x, int(got)) {
+				fail("DecodeToQsolexa/"+encNames[e], "%s.DecodeToQsolexa(%d) = %d, analytic conversion of Phred %d is %.6f", encNames[e], k.V, got, k.V-offset(e), x)
+			}
 		}
 		return true
 	case "phred-probe": // ProbE(q) = 10^(-q/10); Ephred inverse; monotone
